@@ -72,8 +72,13 @@ def apply(toks, au, opts):
             continue
         # Bytes::from(E)  ->  Bytes::vx_from_vec(E)   (From<Vec<u8>> for Bytes)
         if is_id(t, "Bytes") and texts(toks, i + 1, 4) == [":", ":", "from", "("]:
-            au.note("R", "Bytes::from(vec) -> Bytes::vx_from_vec(vec)")
-            out += [t, toks[i + 1], toks[i + 2], Tok("id", "vx_from_vec", "")]
+            strs = set(filter(None, opts.get("bytes_from_string", "").split(",")))
+            if toks[i + 5].text in strs:
+                au.note("R", "Bytes::from(string) -> Bytes::vx_from_string(string)")
+                out += [t, toks[i + 1], toks[i + 2], Tok("id", "vx_from_string", "")]
+            else:
+                au.note("R", "Bytes::from(vec) -> Bytes::vx_from_vec(vec)")
+                out += [t, toks[i + 1], toks[i + 2], Tok("id", "vx_from_vec", "")]
             i += 4
             continue
         # BytesMut::from(E)  ->  BytesMut::vx_from_slice(E)   (From<&[u8]> for BytesMut)
@@ -100,6 +105,19 @@ def apply(toks, au, opts):
             if "fn" in pre:
                 au.note("R", f"inner const {toks[q+1].text} -> let")
                 toks[q] = Tok("id", "let", toks[q].ws)
+    # Instant::now() <= X   ->  Instant::now().vx_le(&X)     (comparison on a shimmed clock type; recipe opt instant_le)
+    if opts.get("instant_le"):
+        while True:
+            z = find_seq(toks, ["Instant", ":", ":", "now", "(", ")", "<", "="])
+            if z < 0:
+                break
+            # operand: identifier chain a.b.c
+            e = z + 8
+            while e < len(toks) and (toks[e].kind == "id" or is_p(toks[e], ".")):
+                e += 1
+            operand = toks[z + 8:e]
+            au.note("R", "Instant::now() <= X -> Instant::now().vx_le(&X)")
+            toks[z + 6:e] = [Tok("p", ".", ""), Tok("id", "vx_le", ""), Tok("p", "(", ""), Tok("p", "&", "")] + [_w(x, "" if q == 0 else x.ws) for q, x in enumerate(operand)] + [Tok("p", ")", "")]
     # type-directed rewrites named by the recipe:  strne=a:b  ->  `a != b` becomes vx_string_ne_str(a, b)
     for spec in filter(None, opts.get("strne", "").split(",")):
         a, b = spec.split(":")
